@@ -176,10 +176,15 @@ func evalTree(n *parsers.VerifNode, env *evalEnv) (*variants.Variant, bool) {
 }
 
 // c01Setup registers variables v0..v(L-1) with symbolic integer values and the test functions.
-func c01Setup(L int, kind int) *evalEnv {
+// c01Setup: one variable and one test function per identifier position of the token list
+// (other positions need none: the type of each token is decided on the path by then).
+func c01Setup(toks []*parsers.ExpressionToken, kind int) *evalEnv {
 	vars := variables.NewVariableCollection()
 	funcs := functions.NewFunctionCollection()
-	for i := 0; i < L; i++ {
+	for i := range toks {
+		if toks[i].Type() != parsers.Variable {
+			continue
+		}
 		name := "v" + string(rune('0'+i))
 		var val *variants.Variant
 		switch kind {
@@ -280,7 +285,7 @@ func H_C01_tokens() {
 		return
 	}
 	vAssume(err == nil) // acceptance itself is C02's subject
-	env := c01Setup(l, vParam("VALS"))
+	env := c01Setup(toks, vParam("VALS"))
 	c01Compare(calc, tree, env)
 	vDone()
 }
@@ -329,7 +334,6 @@ func c01SkeletonTokens(skel int) []*parsers.ExpressionToken {
 
 func H_C01_skeletons() {
 	toks := c01SkeletonTokens(vParam("SKEL"))
-	types := toks
 	tree := parsers.VerifReference(toks)
 	calc := NewExpressionCalculator()
 	var err error
@@ -342,7 +346,7 @@ func H_C01_skeletons() {
 		return
 	}
 	parsers.VerifCheckProgram(calc.parser, tree)
-	env := c01Setup(len(types), vParam("VALS"))
+	env := c01Setup(toks, vParam("VALS"))
 	c01Compare(calc, tree, env)
 	vDone()
 }
